@@ -136,6 +136,21 @@ theorem rpfc_image_reloads (d : RPFCImg.Img) (wf : RPFCImg.WF d) (rest : List UI
     RPFCImg.load 214 (RPFCImg.save 214 d ++ rest) = some (d, rest) :=
   RPFCImg.load_save 214 (by decide) d wf rest
 
+/-- **The reloaded RPFC dictionary is equivalent**: whatever object the model cuts out of the image (`toD`: bucket
+boundaries from the positional index, NUL-terminated headers, unpacked symbols), the image reloaded from the saved
+bytes yields the same one — so `locate`, `extract`, `locatePrefix`, `extractPrefix` and the table scan of the
+reloaded dictionary are those of the saved one, whatever follows the image in the stream. -/
+theorem rpfc_reloaded_answers_the_same (d : RPFCImg.Img) (wf : RPFCImg.WF d) (rest : List UInt8) :
+    ∃ d', RPFCImg.load 214 (RPFCImg.save 214 d ++ rest) = some (d', rest) ∧ RPFCImg.toD d' = RPFCImg.toD d ∧
+      (∀ D, RPFCImg.toD d = some D → ∀ D', RPFCImg.toD d' = some D' →
+        (∀ q, RPFC.locate D' q = RPFC.locate D q) ∧ (∀ i, RPFC.extract D' i = RPFC.extract D i) ∧
+        (∀ q, RPFC.locatePrefix D' q = RPFC.locatePrefix D q)) := by
+  refine ⟨d, RPFCImg.load_save 214 (by decide) d wf rest, rfl, ?_⟩
+  intro D hD D' hD'
+  rw [hD] at hD'
+  cases hD'
+  exact ⟨fun _ => rfl, fun _ => rfl, fun _ => rfl⟩
+
 theorem rpfc_loader_refuses_foreign (t : Nat) (ht : t < 2 ^ 32) (hne : t ≠ 214) (rest : List UInt8) :
     RPFCImg.load 214 (LogSeq.leBytes t 4 ++ rest) = none := RPFCImg.load_foreign 214 t ht hne rest
 
